@@ -2,6 +2,7 @@
 package gw
 
 import (
+	"bufio"
 	"bytes"
 	"fmt"
 	"net"
@@ -266,7 +267,17 @@ func start1(bin string, cfg Config) (*GW, error) {
 		c, err := net.DialTimeout("tcp", addr, time.Second)
 		if err == nil {
 			c.Close()
-			break
+			// the port may have been taken by somebody else between FreePort and the gateway's bind:
+			// the connect then reaches a foreign listener. Only accept if OUR process owns the listener.
+			if ownsListener(cmd.Process.Pid, port) {
+				break
+			}
+			select {
+			case <-g.done:
+				b, _ := os.ReadFile(logPath)
+				return nil, fmt.Errorf("gateway lost the race for port %d: %v\n%s", port, g.waitErr, tail(b, 500))
+			default:
+			}
 		}
 		if time.Now().After(deadline) {
 			g.Kill()
@@ -277,6 +288,42 @@ func start1(bin string, cfg Config) (*GW, error) {
 	rl, _ := os.OpenFile(logPath+".req", os.O_CREATE|os.O_WRONLY|os.O_APPEND, 0o666)
 	g.reqLog = rl
 	return g, nil
+}
+
+// ownsListener reports whether process pid holds the LISTEN socket on 127.0.0.1:port.
+func ownsListener(pid, port int) bool {
+	f, err := os.Open("/proc/net/tcp")
+	if err != nil {
+		return true // cannot tell
+	}
+	defer f.Close()
+	want := fmt.Sprintf(":%04X", port)
+	inode := ""
+	sc := bufio.NewScanner(f)
+	for n := 0; sc.Scan() && n < 200000; n++ {
+		fl := strings.Fields(sc.Text())
+		if len(fl) < 10 || fl[3] != "0A" {
+			continue
+		}
+		if strings.HasSuffix(fl[1], want) {
+			inode = fl[9]
+			break
+		}
+	}
+	if inode == "" {
+		return false
+	}
+	ents, err := os.ReadDir(fmt.Sprintf("/proc/%d/fd", pid))
+	if err != nil {
+		return false
+	}
+	for _, e := range ents {
+		l, err := os.Readlink(fmt.Sprintf("/proc/%d/fd/%s", pid, e.Name()))
+		if err == nil && l == "socket:["+inode+"]" {
+			return true
+		}
+	}
+	return false
 }
 
 func tail(b []byte, n int) []byte {
